@@ -962,3 +962,20 @@ def shift_atoms(expr, delta, fields=None):
             return ("f", a[1], tuple(o[:k]) + tuple(x + d for x, d in zip(o[k:], delta)))
         return a
     return expr.map_atoms(f)
+
+
+def poly_diff(p, atom):
+    """formal derivative of a polynomial with respect to a symbol atom"""
+    t = {}
+    for m, c in p.t.items():
+        d = dict(m)
+        e = d.get(atom, 0)
+        if e == 0:
+            continue
+        if e == 1:
+            del d[atom]
+        else:
+            d[atom] = e - 1
+        mm = tuple(sorted(d.items(), key=lambda ae: _akey(ae[0])))
+        t[mm] = t.get(mm, 0) + c * e
+    return Poly(t)
